@@ -252,40 +252,67 @@ impl<S: BuildHasher + Default + Clone + Send + Sync + 'static> ConcurrentSet
         Self: 'x;
 
     fn insert_element(&self, element: Self::Element) -> bool {
-        let read = self.0.read();
-        match &*read {
+        {
+            let read = self.0.read();
+            match &*read {
+                TieredStorage::Small(vec_lock) => {
+                    let mut vec = vec_lock.write();
+
+                    // A full small storage is upgraded below, under the
+                    // outer write lock.
+                    if vec.len() < 32 {
+                        if vec.contains(&element) {
+                            return false;
+                        }
+
+                        vec.push(element);
+
+                        return true;
+                    }
+                }
+
+                TieredStorage::Large(set) => return set.insert(element),
+            }
+        }
+
+        // Upgrade to large storage if exceed threshold. The whole conversion
+        // happens under the outer write lock: no concurrent insert, remove
+        // or iteration can observe (or push into) the vector while it is
+        // being drained. Both locks were released above, so re-check what
+        // the storage looks like now.
+        let mut write = self.0.write();
+
+        let large_set = match &mut *write {
+            TieredStorage::Large(set) => return set.insert(element),
+
             TieredStorage::Small(vec_lock) => {
-                let mut vec = vec_lock.write();
+                let vec = vec_lock.get_mut();
 
-                // Upgrade to large storage if exceed threshold
-                if vec.len() == 32 {
-                    let large_set = DashSet::with_hasher(S::default());
+                if vec.contains(&element) {
+                    return false;
+                }
 
-                    for item in vec.drain(..) {
-                        large_set.insert(item);
-                    }
-
-                    let result = large_set.insert(element);
-
-                    drop(vec);
-                    drop(read);
-
-                    *self.0.write() = TieredStorage::Large(large_set);
-
-                    result
-                } else {
-                    if vec.contains(&element) {
-                        return false;
-                    }
-
+                if vec.len() < 32 {
                     vec.push(element);
 
-                    true
+                    return true;
                 }
-            }
 
-            TieredStorage::Large(set) => set.insert(element),
-        }
+                let large_set = DashSet::with_hasher(S::default());
+
+                for item in vec.drain(..) {
+                    large_set.insert(item);
+                }
+
+                large_set.insert(element);
+
+                large_set
+            }
+        };
+
+        *write = TieredStorage::Large(large_set);
+
+        true
     }
 
     fn remove_element(&self, element: &Self::Element) -> bool {
